@@ -63,6 +63,9 @@ func (lockH) Generate(property string, seed uint64, tier string) *Case {
 			if g.IntN(3) != 0 {
 				op.Loss = "revoke"
 			}
+			if g.IntN(2) == 0 {
+				op.Kind, op.Who = "capacity", g.IntN(3) // a section under three locks; Who: which one is lost
+			}
 			ops = append(ops, mustJSON(op))
 		}
 		return &Case{Plan: simrt.Plan{Policy: []string{"random", "sticky", "fifo"}[g.IntN(3)], CrashAt: -1}, Cfg: mustJSON(cfg), Ops: ops}
@@ -84,6 +87,15 @@ func (lockH) Generate(property string, seed uint64, tier string) *Case {
 		ops = append(ops, mustJSON(op))
 	}
 	plan := simrt.Plan{Policy: []string{"random", "sticky", "pct", "fifo"}[g.IntN(4)], CrashAt: -1}
+	if property == "C18" && g.IntN(4) == 0 {
+		// a convoy: a few contenders queue for the lock again and again, each wait well within
+		// its timeout, so that one run sees many more polls of a held key than any one wait does
+		cfg.Contenders, cfg.TTLSec = 3, 12
+		ops = ops[:0]
+		for i := 0; i < 14+g.IntN(10); i++ {
+			ops = append(ops, mustJSON(lockOp{Who: i % 3, Kind: "lock", HoldMs: 2500 + g.IntN(1500), GapMs: g.IntN(200)}))
+		}
+	}
 	if property == "C18" {
 		cfg.Shared = g.IntN(2) == 0
 		if g.IntN(2) == 0 {
